@@ -152,9 +152,52 @@ def fingerprint(I, el):
     return (str(e[0]), str(e[1]), tuple(attrs), tuple(kids))
 
 
-def make_signature(I, over_el, key):
+def cert_b64(key):
+    import base64
+    return base64.b64encode(('DER:%d:%d' % key).encode()).decode()
+
+
+def keyinfo_keys(I, sig_el):
+    """Keys named by the X509Certificate children of Signature/KeyInfo/X509Data, in order; None = no KeyInfo;
+    an entry is None when the certificate text is not one of the modelled certificates."""
+    import base64
+    ki = None
+    for c in child_elements(I, sig_el):
+        if el_struct(I, c)[1] == 'KeyInfo':
+            ki = c
+            break
+    if ki is None:
+        return None
+    out = []
+    for xd in child_elements(I, ki):
+        if el_struct(I, xd)[1] != 'X509Data':
+            continue
+        for xc in child_elements(I, xd):
+            if el_struct(I, xc)[1] != 'X509Certificate':
+                continue
+            text = ''
+            for t in I.slice_elems(el_struct(I, xc)[3]):
+                t = I.ctx.force(t)
+                if isinstance(t, Iface) and t.dyn == '*' + ET + 'CharData':
+                    d = I.ctx.load(I.ctx.force(t.val))[0]
+                    text = d if isinstance(d, str) else None
+            k = None
+            if isinstance(text, str):
+                try:
+                    raw = base64.b64decode(''.join(text.split())).decode('latin-1')
+                    if raw.startswith('DER:'):
+                        _, a, b = raw.split(':')
+                        k = (int(a), int(b))
+                except Exception:
+                    k = None
+            out.append(k)
+    return out
+
+
+def make_signature(I, over_el, key, keyinfo=None):
     """ds:Signature element made by `key` (kind,id) over over_el: it references the element by its ID
-    attribute and fixes its content (fingerprint)."""
+    attribute, fixes its content (fingerprint) and carries KeyInfo/X509Data with the certificates of the
+    keys in `keyinfo` (default: the signer's own certificate, as goxmldsig emits it; [] = no KeyInfo)."""
     ref = attr_value(I, over_el, 'ID')
     if ref is None:
         ref = get_marker(I, over_el, 'id')
@@ -166,6 +209,17 @@ def make_signature(I, over_el, key):
     n = new_marker(I, 's')
     I.ctx.ghost.setdefault('sigs', {})[n] = {'ref': ref, 'key': key, 'fp': fingerprint(I, over_el)}
     set_marker(I, sig, 'sig', n)
+    if keyinfo is None:
+        keyinfo = [key]
+    if keyinfo:
+        ki = new_el(I, 'ds:KeyInfo')
+        xd = new_el(I, 'ds:X509Data')
+        for k in keyinfo:
+            xc = new_el(I, 'ds:X509Certificate')
+            I.call_function('(' + EL + ').SetText', [xc, cert_b64(k)])
+            add_child(I, xd, xc)
+        add_child(I, ki, xd)
+        add_child(I, sig, ki)
     return sig
 
 
@@ -188,14 +242,27 @@ def signature_verdict(I, el, keys):
         rec = ctx.ghost.get('sigs', {}).get(n) if isinstance(n, str) else None
         if rec is None or cur is None:
             continue
-        if rec['key'] not in keys:
-            continue
+        # goxmldsig: with KeyInfo the first certificate in it must be a trusted root and is the key the
+        # signature is verified with; without KeyInfo there must be exactly one root and it is used
+        ki = keyinfo_keys(I, c)
+        if ki is None:
+            if len(keys) != 1 or keys[0] != rec['key']:
+                continue
+        else:
+            if not ki or ki[0] is None or ki[0] not in keys or ki[0] != rec['key']:
+                continue
         if fp is None:
             fp = fingerprint(I, el)
         if fp != rec['fp']:
             continue
         conds.append(I.eq(rec['ref'], cur))
     return nsig, b_or(*conds) if conds else False
+
+
+def keyinfo_layout(signer, layout):
+    """0: the signer's certificate (goxmldsig default); 1: no KeyInfo; 2: [signer, other]; 3: [other, signer]."""
+    me, other = (0, signer), (0, 1 - signer)
+    return {0: [me], 1: [], 2: [me, other], 3: [other, me]}[layout]
 
 
 SAML = 'github.com/crewjam/saml.'
@@ -224,11 +291,13 @@ def i_materialise(I, args, ins):
         set_attr(I, ael, 'ID', fld(I, SAML + 'Assertion', A, 'ID'))
         bind_value(I, ael, SAML + 'Assertion', A)
         if sign:
-            add_child(I, ael, make_signature(I, ael, (0, sign - 1)))
+            kl = ctx.concretize(fld(I, AT, da, 'KeyInfo'), 0, 3, 'keyinfo')
+            add_child(I, ael, make_signature(I, ael, (0, sign - 1), keyinfo_layout(sign - 1, kl)))
         add_child(I, resp, ael)
     if sign_resp:
         # the Response signature is made over the complete element (assertions included)
-        add_child(I, resp, make_signature(I, resp, (0, sign_resp - 1)))
+        kl = ctx.concretize(fld(I, DT, d, 'KeyInfo'), 0, 3, 'keyinfo')
+        add_child(I, resp, make_signature(I, resp, (0, sign_resp - 1), keyinfo_layout(sign_resp - 1, kl)))
     return tag_bytes(I, ('serialize', resp), 'docbytes')
 
 
